@@ -44,8 +44,26 @@ def eq_hook(ls, op):
             ls.ctx.acc.cls("index_invalid_" + real.name)
 
 
-def pre_insert_validity(ls, op):
-    pass
+def pre_validity(ls, op):
+    """Remember index validity and the latest stored time before the operation runs."""
+    ls._valid_before = [r.db.index.valid for r in ls.reals]
+    ls._latest_before = max([p["time"] for p in ls.model.points], default=None)
+
+
+def post_validity(ls, op):
+    """Validity rules, evaluated before any later read can rebuild the index."""
+    if op[0] != "insert":
+        return
+    t = op[1]["time"]
+    if op[3] and ls._latest_before is not None and t < ls._latest_before:
+        t = ls._latest_before  # the executor clamps "in-order" inserts
+    for r, vb in zip(ls.reals, ls._valid_before):
+        in_order = ls._latest_before is None or t >= ls._latest_before
+        if r.auto and vb and in_order and not r.db.index.valid:
+            ls.fail("validity-inorder-insert", r, "auto_index on: an insert in non-decreasing time order (%s >= latest %s) invalidated a valid index" % (t.isoformat(), ls._latest_before.isoformat() if ls._latest_before else None))
+        if not vb and r.db.index.valid:
+            ls.fail("validity-insert", r, "an insert turned an invalid index valid")
+        ls.ctx.acc.cls("validity_rule_checked_" + ("inorder" if in_order else "out_of_order"))
 
 
 def classify(ls, ops):
@@ -60,8 +78,8 @@ def classify(ls, ops):
 
 
 HOOKS = (eq_hook,)
-_gen_shard = histcheck.make_run_shard("index", classify, HOOKS)
-replay_hist = histcheck.make_replay(HOOKS)
+PRE, POST = (pre_validity,), (post_validity,)
+_gen_shard = histcheck.make_run_shard("index", classify, HOOKS, pre=PRE, post=POST)
 
 T0 = gen.T0
 P1 = model.mk(T0, "m1", {"a": "x"}, {"a": 1})
@@ -108,16 +126,10 @@ def dfs(ls, depth, acc, stats, first_ops=None):
             continue
         child = clone(ls)
         child.log.append(op)
-        valid_before = [r.db.index.valid for r in child.reals]
-        latest = max([p["time"] for p in child.model.points], default=None)
+        pre_validity(child, op)
         getattr(child, "op_" + op[0])(*op[1:])
+        post_validity(child, op)
         child.check_contents()
-        # validity rules
-        for r, vb in zip(child.reals, valid_before):
-            if r.auto and op[0] == "insert" and vb and (latest is None or op[1]["time"] >= latest) and not r.db.index.valid:
-                child.fail("validity-inorder-insert", r, "in-order insert into a valid index invalidated it")
-            if not vb and op[0] in ("insert", "insert_multiple") and r.db.index.valid and not r.auto:
-                child.fail("validity-insert", r, "an insert turned an invalid index valid")
         eq_hook(child, op)
         stats["nodes"] += 1
         kinds = [o[0] for o in child.log]
@@ -157,6 +169,8 @@ def replay(sub, case, ctx):
     configs = MEM if (case.get("config") or "").startswith("mem") and all(o in ALPHABET for o in case["ops"]) else None
     ls = lockstep.Lockstep(ctx, configs=configs)
     ls.step_hooks = [eq_hook]
+    ls.pre_hooks = [pre_validity]
+    ls.post_hooks = [post_validity]
     try:
         ls.run(case["ops"])
     finally:
